@@ -153,7 +153,9 @@ func (c *TextLayout) ToBytes(e *Event) []byte {
 	enc.AppendEncoderEnd()
 
 	buf.WriteByte('\n')
-	return buf.Bytes()
+	// The buffer goes back to the pool when this function returns,
+	// so the caller must get its own copy of the bytes.
+	return bytes.Clone(buf.Bytes())
 }
 
 // JSONLayout formats a log event as a structured JSON object.
@@ -184,5 +186,7 @@ func (c *JSONLayout) ToBytes(e *Event) []byte {
 	enc.AppendEncoderEnd()
 
 	buf.WriteByte('\n')
-	return buf.Bytes()
+	// The buffer goes back to the pool when this function returns,
+	// so the caller must get its own copy of the bytes.
+	return bytes.Clone(buf.Bytes())
 }
